@@ -457,6 +457,49 @@ theorem untyped_compare (E : Ext) (c : Cond) (v : Val) (ex : Bool)
   rcases hop with h | h | h | h | h | h <;> cases ex <;> simp [condValue, hm, untyped, h] <;>
     cases compareVals v c.val <;> rfl
 
+/-- external functions that are never consulted by untyped numeric comparisons -/
+def goExt0 : Ext := ⟨fun _ => "", fun _ => none, fun _ => none, fun _ => none, fun _ => false, fun _ _ => false⟩
+
+/-- numeric reading of a value: an integer, or a float as the exact fraction it denotes -/
+def toQ : Val → Option (Int × Nat)
+  | .int n => some (n, 1)
+  | .flt n d => some (n, d)
+  | _ => none
+
+/-- `cmpQ` is the exact order of two fractions `a.1/a.2`, `b.1/b.2` (positive denominators):
+nothing is truncated or rounded. -/
+theorem cmpQ_exact (a b : Int × Nat) :
+    (cmpQ a b = .lt ↔ a.1 * b.2 < b.1 * a.2) ∧
+    (cmpQ a b = .eq ↔ a.1 * b.2 = b.1 * a.2) ∧
+    (cmpQ a b = .gt ↔ a.1 * b.2 > b.1 * a.2) := by
+  unfold cmpQ
+  refine ⟨?_, ?_, ?_⟩
+  · exact Int.compare_eq_lt
+  · exact Int.compare_eq_eq
+  · exact Int.compare_eq_gt
+
+theorem untyped_numeric_exact (v w : Val) (a b : Int × Nat) (hv : toQ v = some a) (hw : toQ w = some b) :
+    compareVals v w = some (cmpQ a b) := by
+  cases v <;> cases w <;> simp [toQ] at hv hw <;> subst hv <;> subst hw <;> simp [compareVals, cmpQ]
+
+/-- **untyped_compare_spec (numbers)** (rules_conditions.md: without `Datatype` "Refinery determines
+the type of the incoming span value … it attempts to convert the `Value` parameter to the same
+type"): when the span value and the rule value are both numbers — int64 or float64 on the span,
+int or float on the rule, in any combination — a basic comparison holds iff the field exists and
+the two numbers, taken exactly (`1.5` is not `1`), are in that order. -/
+theorem untyped_compare_numeric (E : Ext) (c : Cond) (v : Val) (ex : Bool) (a b : Int × Nat)
+    (hop : c.op = .neq ∨ c.op = .eq ∨ c.op = .gt ∨ c.op = .lt ∨ c.op = .gte ∨ c.op = .lte)
+    (hdt : c.dt = .none) (hv : toQ v = some a) (hw : toQ c.val = some b) :
+    condValue E c v ex = (ex && ordOp c.op (cmpQ a b)) := by
+  rw [untyped_compare E c v ex hop hdt, untyped_numeric_exact v c.val a b hv hw]
+
+-- 1.5 > 1, 1.5 ≠ 1, -0.5 < 0 (float64 span value, int rule value, no Datatype); 2 < 2.5 (int64 vs float)
+example : condValue goExt0 { field := "a", op := .gt, val := .int 1 } (.flt 3 2) true = true := by decide
+example : condValue goExt0 { field := "a", op := .eq, val := .int 1 } (.flt 3 2) true = false := by decide
+example : condValue goExt0 { field := "a", op := .lt, val := .int 0 } (.flt (-1) 2) true = true := by decide
+example : condValue goExt0 { field := "a", op := .lt, val := .flt 5 2 } (.int 2) true = true := by decide
+example : condValue goExt0 { field := "a", op := .gte, val := .int 2 } (.flt 15 8) true = false := by decide
+
 /-! ## absent fields -/
 
 /-- no span of the trace has (any of) the condition's field(s) -/
